@@ -7,6 +7,10 @@ package patch
 
 // window_is(a, b): the 13-byte entry window at address a currently holds the bytes of b.
 //@ pure func window_is(a uintptr, b []byte) bool = forall i int :: 0 <= i && i < len(b) ==> textmem[a + uintptr(i)] == b[i]
+//@ pure func text_is(a uintptr, b []byte) bool = forall i int :: 0 <= i && i < len(b) ==> textmem[a + uintptr(i)] == b[i]
+// panic_frame(): what an apply that panics while relocating the prologue may leave behind - only the entry windows of
+// targets that were patched before (the previous patch of the same target is removed first) may differ
+//@ pure func panic_frame() bool = forall a uintptr :: textmem[a] == old(textmem[a]) || exists k uintptr :: was_patched(k) && k <= a && a < k + 13
 //@ pure func locked() bool = mutex_held[addr(patchesLock)]
 //@ pure func addr13_ok(a uintptr) bool = a < 0x7fffffff00000000
 
@@ -149,6 +153,11 @@ package patch
 //@   ensures trampoline_on_success: result == nil && p.trampolinePtr > 0 ==> p.fixOriginPtr == p.trampolinePtr
 //@   ensures pages_rx: perm_exec_kept()
 //@   ensures lock_released: !locked()
+//@   panics_only_if relocation_refused: p.trampolinePtr > 0
+//@   ensures_on_panic placeholder_and_other_functions_untouched: (forall a uintptr :: a < p.originPtr || a >= p.originPtr + 13 ==> textmem[a] == old(textmem[a])) && !locked()
+//@   ensures_on_panic entry_not_diverted: forall a uintptr :: p.originPtr <= a && a < p.originPtr + 13 ==> textmem[a] == old(textmem[a]) || (old(has(patches, p.originPtr)) && old(patches[p.originPtr].guard) != nil && old(patches[p.originPtr].guard.applied))
+//@   ensures_on_panic table_entry: has(patches, p.originPtr) && patches[p.originPtr] == p && p.guard == nil
+//@   ensures_on_panic other_guards_kept_on_panic: forall q *patch :: !(old(has(patches, p.originPtr)) && q == old(patches[p.originPtr])) ==> q.guard == old(q.guard)
 
 // tramp_ok: the placeholder body lies outside the origin's entry window and both are sane addresses.
 //@ pure func tramp_ok(origin uintptr, tramp uintptr) bool = addr13_ok(origin) && addr13_ok(tramp) && (tramp + uintptr(bytecode.func_extent(tramp)) <= origin || origin + 13 <= tramp)
@@ -160,6 +169,8 @@ package patch
 //@   ensures error_writes_nothing: result1 != nil ==> text_unchanged()
 //@   ensures returns_placeholder: result1 == nil ==> result0 == trampoline
 //@   ensures pages_rx: perm_exec_kept()
+//@   panics_only_if relocation_refused: true
+//@   ensures_on_panic panic_writes_nothing: text_unchanged()
 
 //@ func fixOriginFuncToTrampoline
 //@   props C03 C02 C13 C14
@@ -167,6 +178,16 @@ package patch
 //@   assigns textmem[trampoline : trampoline + uintptr(bytecode.func_extent(trampoline))], perm, rw_wheld[addr(memory.memoryAccessLock)], rw_rheld[addr(memory.memoryAccessLock)]
 //@   ensures error_writes_nothing: result1 != nil ==> text_unchanged()
 //@   ensures returns_placeholder: result1 == nil ==> result0 == trampoline
+// what reaches the placeholder is the relocated code fixRelativeAddr handed back (never the raw copy of the function) ...
+//@   ensures_local placeholder_receives_the_relocated_code: result1 == nil ==> forall i int :: 0 <= i && i < len(returned(fixRelativeAddr, 0)) ==>
+//@     | textmem[trampoline + uintptr(i)] == returned(fixRelativeAddr, 0)[i]
+// ... followed, unless the whole function was consumed, by a jump to the first instruction that was not copied
+//@   call_requires jmpToOriginFunctionValue jumps_back_to_first_uncopied_instruction: arg0 == trampoline + uintptr(len(fixedData)) && arg1 == origin + uintptr(fixedDataSize)
+//@   ensures_local jump_back_follows: result1 == nil && returned(fixRelativeAddr, 1) < bytecode.func_extent(origin) ==>
+//@     | forall i int :: len(returned(fixRelativeAddr, 0)) <= i && i < len(returned(fixRelativeAddr, 0)) + len(returned(jmpToOriginFunctionValue, 0)) ==>
+//@     |   textmem[trampoline + uintptr(i)] == returned(jmpToOriginFunctionValue, 0)[i - len(returned(fixRelativeAddr, 0))]
+//@   panics_only_if relocation_refused: true
+//@   ensures_on_panic panic_writes_nothing: text_unchanged()
 //@   ensures pages_rx: perm_exec_kept()
 
 // ---- C13: signature check ---------------------------------------------------------------------------------
@@ -224,8 +245,8 @@ package patch
 //@   ensures error_leaves_placeholder: result != nil ==> forall a uintptr :: a < p.originPtr || a >= p.originPtr + 13 ==> textmem[a] == old(textmem[a])
 //@   ensures pages_rx: perm_exec_kept()
 //@   ensures lock_state: locked() == old(locked())
-//@   panics_only_if bad_replacement: !kind_has_pointer(rv_kind(p.replacementValue))
-//@   ensures_on_panic nothing_written: text_unchanged() && table_inv() && !locked()
+//@   panics_only_if bad_replacement: !kind_has_pointer(rv_kind(p.replacementValue)) || p.trampoline != nil
+//@   ensures_on_panic nothing_written: (p.trampoline == nil ==> text_unchanged()) && panic_frame() && table_inv() && !locked()
 
 //@ func (p *patch) unsafePatchValue
 //@   props C02 C01 C11 C13 C14
@@ -248,6 +269,8 @@ package patch
 //@   ensures error_leaves_placeholder: result != nil ==> forall a uintptr :: a < p.originPtr || a >= p.originPtr + 13 ==> textmem[a] == old(textmem[a])
 //@   ensures pages_rx: perm_exec_kept()
 //@   ensures lock_state: !locked()
+//@   panics_only_if relocation_refused: p.trampoline != nil
+//@   ensures_on_panic nothing_written: panic_frame() && table_inv() && !locked()
 
 //@ func (p *patch) patchValue
 //@   props C02 C01 C11 C13 C14
@@ -271,8 +294,8 @@ package patch
 //@   ensures pages_rx: perm_exec_kept()
 //@   ensures lock_state: !locked()
 //@   panics_only_if bad_signature: !rv_valid(p.originValue) || !rv_valid(p.replacementValue) || rv_kind(p.originValue) != reflect.Func || rv_kind(p.replacementValue) != reflect.Func
-//@     | || !sig_compatible(rv_type(p.originValue), rv_type(p.replacementValue))
-//@   ensures_on_panic nothing_written: text_unchanged() && table_inv() && !locked()
+//@     | || !sig_compatible(rv_type(p.originValue), rv_type(p.replacementValue)) || p.trampoline != nil
+//@   ensures_on_panic nothing_written: (p.trampoline == nil ==> text_unchanged()) && panic_frame() && table_inv() && !locked()
 
 //@ func (p *patch) patch
 //@   props C02 C01 C11 C13 C14
@@ -296,8 +319,8 @@ package patch
 //@   ensures pages_rx: perm_exec_kept()
 //@   ensures lock_state: !locked()
 //@   panics_only_if rejected: p.origin == nil || p.replacement == nil || rv_kind(value_of(p.origin)) != reflect.Func || rv_kind(value_of(p.replacement)) != reflect.Func
-//@     | || !sig_compatible(rv_type(value_of(p.origin)), rv_type(value_of(p.replacement)))
-//@   ensures_on_panic nothing_written: text_unchanged() && table_inv() && !locked()
+//@     | || !sig_compatible(rv_type(value_of(p.origin)), rv_type(value_of(p.replacement))) || p.trampoline != nil
+//@   ensures_on_panic nothing_written: (p.trampoline == nil ==> text_unchanged()) && panic_frame() && table_inv() && !locked()
 
 //@ func Trampoline
 //@   props C02 C01 C11 C13 C14
@@ -316,8 +339,8 @@ package patch
 //@   ensures pages_rx: perm_exec_kept()
 //@   ensures lock_state: !locked()
 //@   panics_only_if rejected: origin == nil || replacement == nil || rv_kind(value_of(origin)) != reflect.Func || rv_kind(value_of(replacement)) != reflect.Func
-//@     | || !sig_compatible(rv_type(value_of(origin)), rv_type(value_of(replacement)))
-//@   ensures_on_panic nothing_written: text_unchanged() && table_inv() && !locked()
+//@     | || !sig_compatible(rv_type(value_of(origin)), rv_type(value_of(replacement))) || trampoline != nil
+//@   ensures_on_panic nothing_written: (trampoline == nil ==> text_unchanged()) && panic_frame() && table_inv() && !locked()
 
 //@ func Patch
 //@   props C02 C01 C11 C13 C14
@@ -355,6 +378,8 @@ package patch
 //@   ensures error_leaves_unmocked_targets_alone: result1 != nil ==> forall a uintptr :: textmem[a] == old(textmem[a]) || exists k uintptr :: was_patched(k) && k <= a && a < k + 13
 //@   ensures pages_rx: perm_exec_kept()
 //@   ensures lock_state: !locked()
+//@   panics_only_if relocation_refused: trampoline != nil
+//@   ensures_on_panic nothing_written: panic_frame() && table_inv() && !locked()
 
 //@ func UnsafePatch
 //@   props C02 C01 C11 C13 C14
@@ -390,8 +415,8 @@ package patch
 //@   ensures error_leaves_unmocked_targets_alone: result1 != nil ==> forall a uintptr :: textmem[a] == old(textmem[a]) || exists k uintptr :: was_patched(k) && k <= a && a < k + 13
 //@   ensures pages_rx: perm_exec_kept()
 //@   ensures lock_state: !locked()
-//@   panics_only_if bad_replacement: !kind_has_pointer(rv_kind(value_of(replacement)))
-//@   ensures_on_panic nothing_written: text_unchanged() && table_inv() && !locked()
+//@   panics_only_if bad_replacement: !kind_has_pointer(rv_kind(value_of(replacement))) || trampoline != nil
+//@   ensures_on_panic nothing_written: (trampoline == nil ==> text_unchanged()) && panic_frame() && table_inv() && !locked()
 
 //@ func Ptr
 //@   props C02 C01 C11 C13 C14
@@ -432,8 +457,8 @@ package patch
 //@   ensures pages_rx: perm_exec_kept()
 //@   ensures lock_state: !locked()
 //@   panics_only_if rejected: originType == nil || replacement == nil || rv_kind(value_of(replacement)) != reflect.Func
-//@     | || !sig_compatible(rv_type(rt_method_func(originType, methodName)), rv_type(value_of(replacement)))
-//@   ensures_on_panic nothing_written: text_unchanged() && table_inv() && !locked()
+//@     | || !sig_compatible(rv_type(rt_method_func(originType, methodName)), rv_type(value_of(replacement))) || trampoline != nil
+//@   ensures_on_panic nothing_written: (trampoline == nil ==> text_unchanged()) && panic_frame() && table_inv() && !locked()
 
 //@ func InstanceMethod
 //@   props C02 C01 C11 C13 C14
